@@ -542,6 +542,47 @@ func main() {
 		}
 	}
 
+	// top-level oras.Tag / oras.TagN on a remote Repository
+	served := opManifestDesc.Digest.String()
+	for _, base := range bases {
+		if !baseJudged(base) || strings.HasSuffix(base.Registry, ":") {
+			continue
+		}
+		b := base.Registry + "/" + base.Repository
+		for i := 0; i < run.Scale(600, 10000); i++ {
+			type form struct{ in, want string }
+			mk := func(tag, dg string) form {
+				return common.Pick(r, []form{{tag, tag}, {dg, dg}, {tag + "@" + dg, dg}, {b + ":" + tag, tag}, {b + "@" + dg, dg}, {b + ":" + tag + "@" + dg, dg}})
+			}
+			tags := []string{"v1", "latest", "A.b-c_d", strings.Repeat("x", 128)}
+			srcDg := served
+			if r.Chance(1, 4) {
+				srcDg = randDigestValid(r)
+			}
+			src := mk(common.Pick(r, tags), srcDg)
+			n := 1 + r.Intn(3)
+			dsts, wants := make([]string, n), make([]string, n)
+			known := true
+			for k := range dsts {
+				f := mk(common.Pick(r, tags), common.Pick(r, []string{served, randDigestValid(r)}))
+				dsts[k], wants[k] = f.in, f.want
+			}
+			wantSrc := src.want
+			switch r.Intn(6) {
+			case 0: // an arbitrary / foreign / malformed source: correspondence + slot only
+				src.in, wantSrc = common.Pick(r, []string{otherPath(r, base), randJunk(r), mutate(r, src.in), ""}), ""
+			case 1: // a refused destination somewhere: everything after it must not be sent
+				k := r.Intn(n)
+				dsts[k] = common.Pick(r, []string{otherPath(r, base), "a b", "", "v1@", mutate(r, dsts[k])})
+				known = false
+			}
+			if !known {
+				wantSrc = ""
+			}
+			orasTagCase(base, r.Bool(), src.in, dsts, wantSrc, wants)
+		}
+	}
+
 	// constructors and the Registry's own requests
 	for i := 0; i < run.Scale(6000, 100000); i++ {
 		s := randomValid(r)
@@ -582,7 +623,7 @@ func coverageFloors() {
 		"validate_ok": 300, "registry": 100000, "registry_ok": 3000, "registry_ok_bracket": 200, "constructed": 20000, "constructed_accept": 5000, "parse_ok": 2000, "parse_judged_accept": 1500, "parse_judged_reject": 50000, "repo_ok": 2000, "repo_err": 5000,
 		"repo_other_path_rejected": 3000, "component_repo_ok": 5000, "component_digest_ok": 3000, "component_tag_ok": 500,
 		"op_mresolve": 500, "op_mfetchref": 500, "op_tag": 500, "op_pushref": 500, "op_bresolve": 500, "op_bfetchref": 500,
-		"newrepo_ok": 500, "newregistry_ok": 1000, "registry_repository_ok": 300, "regop_rping": 300, "regop_rcatalog": 300, "descop_judged": 3000, "descop_dmfetch": 300, "descop_dmdelete": 300, "descop_dbfetch": 300, "descop_dbdelete": 300, "descop_dreferrers": 300, "descop_dmount": 300, "descop_dbpush": 300, "descop_dtags": 300, "op_sent": 3000, "op_refused": 3000, "op_ground_truth": 500,
+		"oras_tag": 2000, "oras_tag_put": 1000, "oras_tag_ground_truth": 1000, "newrepo_ok": 500, "newregistry_ok": 1000, "registry_repository_ok": 300, "regop_rping": 300, "regop_rcatalog": 300, "descop_judged": 3000, "descop_dmfetch": 300, "descop_dmdelete": 300, "descop_dbfetch": 300, "descop_dbdelete": 300, "descop_dreferrers": 300, "descop_dmount": 300, "descop_dbpush": 300, "descop_dtags": 300, "op_sent": 3000, "op_refused": 3000, "op_ground_truth": 500,
 		"url_manifest": 100, "url_blob": 100, "url_referrers": 100, "url_taglist": 100, "url_upload": 100, "url_base": 100, "url_catalog": 100, "url_repobase": 100,
 		"url_query_referrers": 100, "url_query_mount": 100,
 	}
@@ -620,6 +661,8 @@ func replay(path string) {
 				descOpCase(registry.Reference{Registry: c["registry"], Repository: c["repository"]}, c["kind"], c["plain"] == "true", c["reference"], c["input"], n)
 			}
 			forcedVariant = -1
+		case "T":
+			orasTagCase(registry.Reference{Registry: c["registry"], Repository: c["repository"]}, c["plain"] == "true", c["input"], strings.Split(c["dsts"], "\x00"), "", nil)
 		case "N":
 			if c["kind"] == "repo" {
 				newRepositoryCase(c["input"])
